@@ -3545,6 +3545,7 @@ impl<'de> Deserialize<'de> for &'static Encoding {
 }
 
 /// Tracks the life cycle of a decoder from BOM sniffing to conversion to end.
+#[cfg_attr(feature = "hsivonen_encoding_rs_verif", derive(Eq, Hash))]
 #[derive(PartialEq, Debug, Copy, Clone)]
 enum DecoderLifeCycle {
     /// The decoder has seen no input yet.
@@ -3738,6 +3739,7 @@ pub enum DecoderResult {
 /// reference of output, an infinite loop ensues. When converting with a
 /// fixed-size output buffer, it generally makes sense to make the buffer
 /// fairly large (e.g. couple of kilobytes).
+#[cfg_attr(feature = "hsivonen_encoding_rs_verif", derive(Clone, PartialEq, Eq, Hash))]
 pub struct Decoder {
     encoding: &'static Encoding,
     variant: VariantDecoder,
@@ -4425,6 +4427,21 @@ impl Decoder {
     }
 }
 
+/// Verification hook (add-only, feature-guarded): complete internal state.
+#[cfg(feature = "hsivonen_encoding_rs_verif")]
+impl Decoder {
+    /// Renders every field of the decoder (encoding name, life cycle and the
+    /// complete variant payload).
+    pub fn verif_fingerprint(&self) -> alloc::string::String {
+        alloc::format!(
+            "{}|{:?}|{:?}",
+            self.encoding.name(),
+            self.life_cycle,
+            self.variant
+        )
+    }
+}
+
 impl core::fmt::Debug for Decoder {
     fn fmt(&self, f: &mut core::fmt::Formatter) -> core::fmt::Result {
         f.debug_struct("Decoder")
@@ -4576,6 +4593,7 @@ impl EncoderResult {
 /// accommodate one character of output, an infinite loop ensues. When
 /// converting with a fixed-size output buffer, it generally makes sense to
 /// make the buffer fairly large (e.g. couple of kilobytes).
+#[cfg_attr(feature = "hsivonen_encoding_rs_verif", derive(Clone, PartialEq, Eq, Hash))]
 pub struct Encoder {
     encoding: &'static Encoding,
     variant: VariantEncoder,
@@ -4949,6 +4967,22 @@ impl Encoder {
     ) -> (EncoderResult, usize, usize) {
         self.variant.encode_from_utf16_raw(src, dst, last)
     }
+}
+
+/// Verification hook (add-only, feature-guarded): complete internal state.
+#[cfg(feature = "hsivonen_encoding_rs_verif")]
+impl Encoder {
+    /// Renders every field of the encoder.
+    pub fn verif_fingerprint(&self) -> alloc::string::String {
+        alloc::format!("{}|{:?}", self.encoding.name(), self.variant)
+    }
+}
+
+/// Verification hook (add-only, feature-guarded): when set, the built-in
+/// scalar UTF-8 validator is used also for inputs of 64 bytes or more.
+#[cfg(feature = "hsivonen_encoding_rs_verif")]
+pub fn verif_force_scalar_utf8(on: bool) {
+    utf_8::VERIF_FORCE_SCALAR_UTF8.store(on, core::sync::atomic::Ordering::SeqCst);
 }
 
 impl core::fmt::Debug for Encoder {
